@@ -102,6 +102,34 @@ fn one_carrier(rep: &mut Report, m: &Model, seed: u64, idx: u64, carrier: usize)
             }
         }
     }
+    // the same object serialised again after it was edited through attributes_mut() (one attribute removed, another name inserted:
+    // the count stays, the name set changes) - nothing remembered from the first serialisation may leak into the second
+    if carrier == 0 {
+        if let Some(gi) = m.groups.iter().position(|g| !g.attrs.is_empty()) {
+            rep.eval();
+            rep.count("serialised_again_after_edit", 1);
+            let r = catch(|| {
+                let mut req = mirror::to_ipp(m);
+                let (_, first) = rt::<IppRequestResponse>(&req, 0)?;
+                std::hint::black_box(first.len());
+                let victim = m.groups[gi].attrs.keys().next().unwrap().clone();
+                let g = &mut req.attributes_mut().groups_mut()[gi];
+                g.attributes_mut().remove(&victim);
+                g.attributes_mut().insert("verif-edited".to_string(), ipp::attribute::IppAttribute::new("verif-edited", IppValue::Integer(7)));
+                let (back, s) = rt::<IppRequestResponse>(&req, 0)?;
+                let mut want = expected.clone();
+                want.groups[gi].attrs.remove(&victim);
+                want.groups[gi].attrs.insert("verif-edited".to_string(), ippref::MVal::Integer(7));
+                Ok::<_, String>((mirror::diff(&want, &mirror::from_ipp_head(back.header(), back.attributes())), s))
+            });
+            match r {
+                Err(p) => rep.violation(format!("C20:panic:{}", panic_site(&p)), format!("case {idx} (serialised again after an edit): {p}"), replay.clone()),
+                Ok(Err(e)) => rep.violation(format!("C20:{}", e.split(':').next().unwrap_or("error")), format!("case {idx} (serialised again after an edit): {e}"), replay.clone()),
+                Ok(Ok((Some(d), s))) => rep.violation("C20:message-differs:after-edit", format!("case {idx}: serialise, edit through attributes_mut(), serialise again: {d}; json head: {}", s.chars().take(300).collect::<String>()), replay.clone()),
+                Ok(Ok((None, _))) => {}
+            }
+        }
+    }
     // IppAttributes alone, IppValue alone
     rep.eval();
     let r = catch(|| {
